@@ -52,7 +52,8 @@ pub enum Step {
     Read(u16),
     ReadEnd,
     Close,
-    /// by_index_decrypt with the entry's own password (0), a different one (1) or an empty one (2)
+    /// by_index_decrypt with the entry's own password (0), a different one (1), an empty one (2) or a
+    /// different one that happens to pass the one-byte header check of this ZipCrypto entry (3)
     OpenPw(u8, u8),
     /// by_index_raw
     OpenRaw(u8),
@@ -87,10 +88,11 @@ impl Handle {
                 }
                 let idx = *i as usize % n_entries;
                 let a: &'static mut Arch = unsafe { &mut *self.arc };
-                let pw: Vec<u8> = match which % 3 {
+                let pw: Vec<u8> = match which % 4 {
                     0 => pws.get(idx).cloned().flatten().unwrap_or_else(|| "unused".into()).into_bytes(),
                     1 => b"not the password".to_vec(),
-                    _ => Vec::new(),
+                    2 => Vec::new(),
+                    _ => PASSING.with(|p| p.borrow().get(idx).cloned().flatten()).unwrap_or_else(|| b"not the password".to_vec()),
                 };
                 match a.by_index_decrypt(idx, &pw) {
                     Ok(Ok(f)) => {
@@ -220,6 +222,41 @@ fn interleavings(lens: &[usize], cap: usize) -> Vec<Vec<usize>> {
 
 static INTERLEAVINGS: std::sync::atomic::AtomicU64 = std::sync::atomic::AtomicU64::new(0);
 
+thread_local! {
+    /// per entry of the case being checked: a WRONG password that passes the one-byte check of the entry's
+    /// ZipCrypto header (found by search with the independent cipher), if the entry is encrypted
+    static PASSING: std::cell::RefCell<Vec<Option<Vec<u8>>>> = const { std::cell::RefCell::new(Vec::new()) };
+}
+
+fn passing_wrong_passwords(bytes: &[u8], pws: &[Option<String>]) -> Vec<Option<Vec<u8>>> {
+    let mut out = vec![None; pws.len()];
+    let Ok(mut za) = zip::ZipArchive::new(Cursor::new(bytes)) else { return out };
+    for (i, pw) in pws.iter().enumerate() {
+        let Some(real) = pw else { continue };
+        let Ok(f) = za.by_index_raw(i) else { continue };
+        let (ds, crc, cs) = (f.data_start() as usize, f.crc32(), f.compressed_size());
+        drop(f);
+        if cs < 12 || ds + 12 > bytes.len() {
+            continue;
+        }
+        for k in 0..20000u32 {
+            let cand = format!("w{k}");
+            if cand == *real {
+                continue;
+            }
+            let mut keys = crate::refzip::crypto::PkKeys::new(cand.as_bytes());
+            let mut h = [0u8; 12];
+            h.copy_from_slice(&bytes[ds..ds + 12]);
+            keys.decrypt(&mut h);
+            if h[11] == (crc >> 24) as u8 {
+                out[i] = Some(cand.into_bytes());
+                break;
+            }
+        }
+    }
+    out
+}
+
 fn check(c: &Case, info: &mut Info) -> Result<(), String> {
     let bytes: Arc<[u8]> = gen::run_program(&c.program, false).map_err(|e| format!("harness: {e}"))?.into();
     let base = zip::ZipArchive::new(PosReader::new(bytes.clone(), c.clone_mode)).map_err(|e| format!("harness: {e}"))?;
@@ -229,6 +266,13 @@ fn check(c: &Case, info: &mut Info) -> Result<(), String> {
         (0..n).map(|i| b.by_index_raw(i).map(|f| f.name().to_string()).unwrap_or_default()).collect()
     };
     let pws: Vec<Option<String>> = gen::model(&c.program).0.iter().map(|m| m.password.clone()).collect();
+    if c.scripts.iter().flatten().any(|s| matches!(s, Step::OpenPw(_, w) if w % 4 == 3)) {
+        let p = passing_wrong_passwords(&bytes, &pws);
+        info.label_if(p.iter().any(|x| x.is_some()), "wrong-password-that-passes-the-header-check");
+        PASSING.with(|c| *c.borrow_mut() = p);
+    } else {
+        PASSING.with(|c| c.borrow_mut().clear());
+    }
     // optionally the handle the clones are taken from has been used first
     let mut origin = Handle::new(base);
     if let Some(k) = c.warm_up {
@@ -376,7 +420,7 @@ struct IdReader {
     cur: Cursor<Arc<[u8]>>,
     id: usize,
     ids: Arc<std::sync::atomic::AtomicUsize>,
-    plan: Arc<(usize, usize, bool)>,
+    plan: Arc<(usize, usize, u8)>,
     ops: Arc<std::sync::atomic::AtomicUsize>,
 }
 impl Clone for IdReader {
@@ -389,10 +433,16 @@ impl IdReader {
         if self.id == self.plan.0 {
             let k = self.ops.fetch_add(1, std::sync::atomic::Ordering::SeqCst);
             if k == self.plan.1 {
-                if self.plan.2 {
+                if self.plan.2 == 1 {
                     panic!("injected: the victim handle's own reader panics");
                 }
-                return Err(std::io::Error::new(std::io::ErrorKind::Other, "injected: the victim handle's own reader fails"));
+                let kind = match self.plan.2 {
+                    2 => std::io::ErrorKind::UnexpectedEof,
+                    3 => std::io::ErrorKind::InvalidData,
+                    4 => std::io::ErrorKind::TimedOut,
+                    _ => std::io::ErrorKind::Other,
+                };
+                return Err(std::io::Error::new(kind, "injected: the victim handle's own reader fails"));
             }
         }
         Ok(())
@@ -454,12 +504,13 @@ fn check_faulty_sibling(c: &FCase, info: &mut Info) -> Result<(), String> {
         f.read_to_end(&mut v).map_err(|e| format!("read failed: {e}"))?;
         Ok((f.name().to_string(), v, f.data_start()))
     };
-    for panic_kind in [false, true] {
+    for fkind in [0u8, 1, 2, 3, 4] {
+        let panic_kind = fkind == 1;
         let mut at = 0usize;
         loop {
             FAULT_RUNS.fetch_add(1, std::sync::atomic::Ordering::Relaxed);
             let ops = Arc::new(std::sync::atomic::AtomicUsize::new(0));
-            let rd = IdReader { cur: Cursor::new(bytes.clone()), id: 0, ids: Arc::new(std::sync::atomic::AtomicUsize::new(1)), plan: Arc::new((1, at, panic_kind)), ops: ops.clone() };
+            let rd = IdReader { cur: Cursor::new(bytes.clone()), id: 0, ids: Arc::new(std::sync::atomic::AtomicUsize::new(1)), plan: Arc::new((1, at, fkind)), ops: ops.clone() };
             let base = zip::ZipArchive::new(rd).map_err(|e| format!("harness: {e}"))?;
             let mut a = base.clone(); // id 1: the victim
             let mut b = base.clone(); // id 2
@@ -480,9 +531,9 @@ fn check_faulty_sibling(c: &FCase, info: &mut Info) -> Result<(), String> {
                 let i = ob[step];
                 match catch(std::panic::AssertUnwindSafe(|| read_one(&mut b, i))) {
                     Ok(Ok(o)) if o == expected[i] => {}
-                    Ok(Ok(o)) => return Err(format!("sibling handle observes {} bytes / data_start {} for entry {i} ({:?}), a handle used alone observes {} bytes / data_start {} (victim's reader {} at its I/O call {at})", o.1.len(), o.2, expected[i].0, expected[i].1.len(), expected[i].2, if panic_kind { "panicked" } else { "failed" })),
-                    Ok(Err(e)) => return Err(format!("sibling handle: entry {i} ({:?}): {e}, although only the OTHER clone's reader {} (at its I/O call {at}); the entry opens and reads fine on a handle used alone", expected[i].0, if panic_kind { "panicked" } else { "failed" })),
-                    Err(p) => return Err(format!("sibling handle PANICKED on entry {i} ({:?}): {p} - only the OTHER clone's reader {} (at its I/O call {at})", expected[i].0, if panic_kind { "panicked" } else { "failed" })),
+                    Ok(Ok(o)) => return Err(format!("sibling handle observes {} bytes / data_start {} for entry {i} ({:?}), a handle used alone observes {} bytes / data_start {} (victim's reader {} at its I/O call {at})", o.1.len(), o.2, expected[i].0, expected[i].1.len(), expected[i].2, if panic_kind { "panicked".to_string() } else { format!("failed with {}", ["an error of kind Other", "", "UnexpectedEof", "InvalidData", "TimedOut"][fkind as usize]) })),
+                    Ok(Err(e)) => return Err(format!("sibling handle: entry {i} ({:?}): {e}, although only the OTHER clone's reader {} (at its I/O call {at}); the entry opens and reads fine on a handle used alone", expected[i].0, if panic_kind { "panicked".to_string() } else { format!("failed with {}", ["an error of kind Other", "", "UnexpectedEof", "InvalidData", "TimedOut"][fkind as usize]) })),
+                    Err(p) => return Err(format!("sibling handle PANICKED on entry {i} ({:?}): {p} - only the OTHER clone's reader {} (at its I/O call {at})", expected[i].0, if panic_kind { "panicked".to_string() } else { format!("failed with {}", ["an error of kind Other", "", "UnexpectedEof", "InvalidData", "TimedOut"][fkind as usize]) })),
                 }
             }
             if ops.load(std::sync::atomic::Ordering::SeqCst) <= at {
@@ -525,7 +576,7 @@ fn probe_send_sync(ctx: &mut Ctx) {
 }
 
 pub fn run(ctx: &mut Ctx) {
-    ctx.rule("interleavings: 2-3 clones of one opened archive (pristine, or just used for the first k steps of a script; the underlying reader's clone() keeps the position, rewinds, or lands elsewhere), each with a generated script over {open entry by index / by name / raw / with the right, a wrong or an empty password (plain and ZipCrypto entries), query the open entry's accessors again, read k bytes, read to end, close}; EVERY interleaving of the scripts at call granularity on one thread (up to 1680 per script set) - each handle must observe exactly what the same script observes on an archive used alone. threads: a fresh archive, N in {2,4,8,16} clones on N OS threads released from a barrier, each opening (by index or by name) and reading all entries in a generated order (shared prefix + private shuffle) with generated yield points; every observation equals that of a handle used alone. faulty_sibling: two clones of a fresh archive take turns; the first clone's OWN reader fails (I/O error / panic) at its k-th I/O call for every k - the second clone must observe exactly what a handle used alone observes. send_sync_probe: a probe crate that only compiles if ZipArchive<R>: Send + Sync for R: Send + Sync. Non-trivial = the interleaving switches handles while an entry is open on another handle.");
+    ctx.rule("interleavings: 2-3 clones of one opened archive (pristine, or just used for the first k steps of a script; the underlying reader's clone() keeps the position, rewinds, or lands elsewhere), each with a generated script over {open entry by index / by name / raw / with the right, a wrong or an empty password, or a wrong one found to pass the one-byte header check of that ZipCrypto entry (plain and ZipCrypto entries), query the open entry's accessors again, read k bytes, read to end, close}; EVERY interleaving of the scripts at call granularity on one thread (up to 1680 per script set) - each handle must observe exactly what the same script observes on an archive used alone. threads: a fresh archive, N in {2,4,8,16} clones on N OS threads released from a barrier, each opening (by index or by name) and reading all entries in a generated order (shared prefix + private shuffle) with generated yield points; every observation equals that of a handle used alone. mode_pairs: for every entry of a fixed archive (plain / ZipCrypto x stored / deflated) EVERY pair of ways to open it (by index, by name, raw, with the right / a wrong / an empty / a header-check-passing wrong password) on two clones, each reading to the end (or reading it all and querying again), all interleavings. faulty_sibling: two clones of a fresh archive take turns; the first clone's OWN reader fails (I/O error of kind Other / UnexpectedEof / InvalidData / TimedOut, or a panic) at its k-th I/O call for every k - the second clone must observe exactly what a handle used alone observes. send_sync_probe: a probe crate that only compiles if ZipArchive<R>: Send + Sync for R: Send + Sync. Non-trivial = the interleaving switches handles while an entry is open on another handle.");
     ctx.assume("OS thread schedules are sampled, not enumerated (the single-thread interleaving enumeration is the deciding part); Send/Sync is a compile-time fact observed by a build probe");
     if ctx.is_run() {
         probe_send_sync(ctx);
@@ -542,7 +593,7 @@ pub fn run(ctx: &mut Ctx) {
         n,
         &|| {
             let small = || prop_oneof![0u8..6, any::<u8>()];
-            let step = prop_oneof![3 => small().prop_map(Step::Open), 1 => small().prop_map(Step::OpenByName), 2 => (small(), 0u8..3).prop_map(|(i, w)| Step::OpenPw(i, w)), 1 => small().prop_map(Step::OpenRaw), 2 => Just(Step::Meta), 3 => prop_oneof![Just(1u16), Just(5), 1u16..200, Just(5000)].prop_map(Step::Read), 2 => Just(Step::ReadEnd), 1 => Just(Step::Close)];
+            let step = prop_oneof![3 => small().prop_map(Step::Open), 1 => small().prop_map(Step::OpenByName), 2 => (small(), 0u8..4).prop_map(|(i, w)| Step::OpenPw(i, w)), 1 => small().prop_map(Step::OpenRaw), 2 => Just(Step::Meta), 3 => prop_oneof![Just(1u16), Just(5), 1u16..200, Just(5000)].prop_map(Step::Read), 2 => Just(Step::ReadEnd), 1 => Just(Step::Close)];
             let script = |lo: usize, hi: usize| proptest::collection::vec(step.clone(), lo..=hi);
             (
                 gen::program(5, 20000, false, true).prop_filter("has entries", |p| gen::entry_count(p) > 0).prop_map(gen::tame),
@@ -561,7 +612,7 @@ pub fn run(ctx: &mut Ctx) {
             info.label(["clone-keeps-position", "clone-rewinds", "clone-at-end", "clone-in-the-middle"][(c.clone_mode % 4) as usize]);
             info.label_if(c.warm_up.is_some(), "cloned-from-a-used-handle");
             info.label_if(gen::model(&c.program).0.iter().any(|m| m.password.is_some()), "has-encrypted-entries");
-            info.label_if(c.scripts.iter().flatten().any(|s| matches!(s, Step::OpenPw(_, w) if w % 3 != 0)), "open-with-wrong-password");
+            info.label_if(c.scripts.iter().flatten().any(|s| matches!(s, Step::OpenPw(_, w) if w % 4 != 0)), "open-with-wrong-password");
             info.label_if(c.scripts.iter().flatten().any(|s| matches!(s, Step::Meta)), "accessors-queried-again");
             match catch(|| check(c, info)) {
                 Ok(r) => Verdict::from_result(r),
@@ -569,6 +620,54 @@ pub fn run(ctx: &mut Ctx) {
             }
         },
     );
+    // every pair of ways to open the same entry, one handle reading it completely, the other then (or
+    // meanwhile) opening it its own way: state that one handle's complete read leaves behind for the others
+    {
+        use crate::refzip::Content;
+        let mk = |m: gen::Method, pw: Option<&str>, name: &str, c: Content| {
+            let mut o = gen::Opts::plain(m);
+            o.password = pw.map(|s| s.to_string());
+            gen::Op::File { name: name.into(), opts: o, chunks: vec![c] }
+        };
+        let program = Program {
+            ops: vec![
+                mk(gen::Method::Stored, None, "plain-stored", Content::Text { seed: 1, len: 300 }),
+                mk(gen::Method::Stored, Some("secret"), "zc-stored", Content::Text { seed: 2, len: 400 }),
+                mk(gen::Method::Deflated, Some("secret"), "zc-deflated", Content::Text { seed: 3, len: 900 }),
+                mk(gen::Method::Deflated, None, "plain-deflated", Content::Text { seed: 4, len: 700 }),
+                mk(gen::Method::Stored, Some("other"), "zc-stored-2", Content::Rand { seed: 5, len: 64 }),
+            ],
+        };
+        let opens = |k: u8, i: u8| match k {
+            0 => Step::Open(i),
+            1 => Step::OpenByName(i),
+            2 => Step::OpenRaw(i),
+            w => Step::OpenPw(i, w - 3),
+        };
+        let total = 5u64 * 7 * 7 * 2;
+        ctx.enumerate::<Case>(
+            "mode_pairs",
+            total,
+            &|k| {
+                let entry = (k % 5) as u8;
+                let a = ((k / 5) % 7) as u8;
+                let b = ((k / 35) % 7) as u8;
+                let tail = if (k / 245) % 2 == 0 { vec![Step::ReadEnd] } else { vec![Step::Read(5000), Step::Read(1), Step::Meta] };
+                let mut sa = vec![opens(a, entry)];
+                sa.extend(tail.clone());
+                let mut sb = vec![opens(b, entry)];
+                sb.extend(tail);
+                Case { program: program.clone(), scripts: vec![sa, sb], clone_mode: (k % 4) as u8, warm_up: None }
+            },
+            &|c: &Case, info: &mut Info| {
+                info.label_if(c.scripts.iter().flatten().any(|s| matches!(s, Step::OpenPw(_, w) if w % 4 == 3)), "open-with-a-wrong-password-that-passes-the-header-check");
+                match catch(|| check(c, info)) {
+                    Ok(r) => Verdict::from_result(r),
+                    Err(p) => Verdict::Fail(format!("PANIC: {p}")),
+                }
+            },
+        );
+    }
     let nf = ctx.q(150, 2000);
     ctx.explore::<FCase>(
         "faulty_sibling",
